@@ -80,7 +80,7 @@ func (c *mcCfg) evName(e mcEvent) string {
 	case evStep:
 		return "sendPacketMsg"
 	case evBatch:
-		return "sendSomePacketMsgs"
+		return "sendPacketMsg until exhausted"
 	case evFlush:
 		return "flush"
 	case evDeliverAll:
@@ -106,25 +106,6 @@ func mcMsg(ch, seq, size int) []byte {
 	return out
 }
 
-// capConn is the stepped sender's connection: Write appends to the wire buffer.
-type capConn struct {
-	wire  []byte
-	total int
-}
-
-func (c *capConn) Read(p []byte) (int, error) { select {} }
-func (c *capConn) Write(p []byte) (int, error) {
-	c.wire = append(c.wire, p...)
-	c.total += len(p)
-	return len(p), nil
-}
-func (c *capConn) Close() error                       { return nil }
-func (c *capConn) LocalAddr() net.Addr                { return addr("sender") }
-func (c *capConn) RemoteAddr() net.Addr               { return addr("receiver") }
-func (c *capConn) SetDeadline(t time.Time) error      { return nil }
-func (c *capConn) SetReadDeadline(t time.Time) error  { return nil }
-func (c *capConn) SetWriteDeadline(t time.Time) error { return nil }
-
 type delivery struct {
 	ch  byte
 	msg []byte
@@ -139,9 +120,9 @@ type mcInst struct {
 	c      *mcCfg
 	tx     *conn.MConnection
 	rx     *conn.MConnection
-	cap    *capConn
-	rxEnd  *endpoint // receiver's connection; fed through rxEnd.in
-	feedTo *wire
+	stage  *wire // what the sender's connection wrote and the harness has not delivered yet
+	feedTo *wire // the wire the receiver's connection reads from
+	ends   []*endpoint
 
 	mu        sync.Mutex
 	delivered []delivery
@@ -167,8 +148,11 @@ func mconnConfig(payload int) conn.MConnConfig {
 	return cfg
 }
 
-func newMcInst(c *mcCfg) *mcInst {
-	in := &mcInst{c: c, cap: &capConn{}}
+// newMcInst builds a fresh sender/receiver pair. Without ch the two MConnections sit directly on harness
+// connections; with secure=true each sits on a REAL SecretConnection (fresh real handshake) the way
+// peer.go stacks them, and the raw reads of the receiving side are choice points of ch.
+func newMcInst(c *mcCfg, secure bool, ch *vk.Chooser) *mcInst {
+	in := &mcInst{c: c}
 	descs := func() []*conn.ChannelDescriptor {
 		var d []*conn.ChannelDescriptor
 		for i, id := range c.chIDs {
@@ -178,16 +162,33 @@ func newMcInst(c *mcCfg) *mcInst {
 	}
 	in.sent = make([][][]byte, len(c.chIDs))
 	in.got = make([]int, len(c.chIDs))
-	in.tx = conn.NewMConnectionWithConfig(in.cap, descs(), func(byte, []byte) {}, func(e interface{}) {
+	var txConn, rxConn net.Conn
+	if !secure {
+		a, b := newConnPair()
+		txConn, rxConn = a, b
+		in.ends = []*endpoint{a, b}
+	} else {
+		a, b, ra, rb := handshakePair(keyA, 31, keyB, 32, false)
+		in.ends = []*endpoint{a, b}
+		if ra.err != nil || rb.err != nil {
+			in.fail("handshake:honest-peer-rejected:plain", "honest handshake failed: A: %v, B: %v", ra.err, rb.err)
+			return in
+		}
+		txConn, rxConn = ra.sc, rb.sc
+	}
+	a, b := in.ends[0], in.ends[1]
+	in.stage = newWire()
+	in.stage.coalesce = true
+	a.out = in.stage // the sender's writes are staged; the harness moves them to b.in
+	in.feedTo = b.in
+	in.feedTo.setStream(false, ch)
+	in.tx = conn.NewMConnectionWithConfig(txConn, descs(), func(byte, []byte) {}, func(e interface{}) {
 		in.mu.Lock()
 		in.txErr = append(in.txErr, fmt.Sprint(e))
 		in.mu.Unlock()
 	}, mconnConfig(c.payload))
 	conn.VerifC18PrepareSender(in.tx)
-	rxEnd, feeder := newConnPair()
-	rxEnd.in.setStream(false, nil)
-	in.rxEnd, in.feedTo = rxEnd, feeder.out
-	in.rx = conn.NewMConnectionWithConfig(rxEnd, descs(), func(ch byte, msg []byte) {
+	in.rx = conn.NewMConnectionWithConfig(rxConn, descs(), func(ch byte, msg []byte) {
 		in.mu.Lock()
 		in.delivered = append(in.delivered, delivery{ch, append([]byte{}, msg...)}) // the slice is only valid during the call
 		in.mu.Unlock()
@@ -204,8 +205,15 @@ func newMcInst(c *mcCfg) *mcInst {
 }
 
 func (in *mcInst) close() {
-	conn.VerifC18ReleaseSender(in.tx)
-	in.rx.Stop()
+	if in.tx != nil {
+		conn.VerifC18ReleaseSender(in.tx)
+	}
+	if in.rx != nil {
+		in.rx.Stop()
+	}
+	for _, e := range in.ends {
+		e.Close()
+	}
 }
 
 func (in *mcInst) fail(key, format string, a ...interface{}) {
@@ -223,29 +231,22 @@ func (in *mcInst) chIndex(id byte) int {
 	return -1
 }
 
-// step performs one sender step and records which channel emitted a packet of which encoded size.
+// senderStep performs one sendPacketMsg and records which channel emitted a packet of which encoded
+// size; with batch=true it repeats until the channels are exhausted, which is the loop of
+// sendSomePacketMsgs unrolled (the real sendSomePacketMsgs runs in every closing drain; unrolling keeps
+// the packet log, and with it the state key, exact).
 func (in *mcInst) senderStep(batch bool) {
-	before := conn.VerifC18ChanStates(in.tx)
-	if !batch {
-		conn.VerifC18SendPacketMsg(in.tx)
+	for i := 0; i < 1000; i++ {
+		before := conn.VerifC18ChanStates(in.tx)
+		exhausted := conn.VerifC18SendPacketMsg(in.tx)
 		after := conn.VerifC18ChanStates(in.tx)
 		for i := range after {
 			if d := after[i].RecentlySent - before[i].RecentlySent; d > 0 {
 				in.packets = append(in.packets, packetRec{i, int(d)})
 			}
 		}
-		return
-	}
-	// the batch step is the production loop; to keep the packet log exact it is observed packet by packet
-	// through the capture buffer: every packet is written to the buffered writer in one piece, so the
-	// per-channel counters before/after are enough when at most one packet was sent; otherwise the log is
-	// rebuilt by replaying single steps on the side is impossible (real objects cannot be cloned) - the
-	// batch therefore records an opaque entry per channel total.
-	conn.VerifC18SendSome(in.tx)
-	after := conn.VerifC18ChanStates(in.tx)
-	for i := range after {
-		if d := after[i].RecentlySent - before[i].RecentlySent; d > 0 {
-			in.packets = append(in.packets, packetRec{-1 - i, int(d)})
+		if !batch || exhausted {
+			return
 		}
 	}
 }
@@ -254,9 +255,7 @@ func (in *mcInst) deliver(n int) {
 	if n <= 0 {
 		return
 	}
-	chunk := in.cap.wire[:n]
-	in.feedTo.write(chunk)
-	in.cap.wire = append([]byte(nil), in.cap.wire[n:]...)
+	in.feedTo.write(in.stage.take(n))
 	in.fed += n
 	in.feedTo.waitBlocked()
 	in.absorb()
@@ -341,11 +340,11 @@ func (in *mcInst) apply(e mcEvent) {
 	case evFlush:
 		conn.VerifC18Flush(in.tx)
 	case evDeliverAll:
-		in.deliver(len(in.cap.wire))
+		in.deliver(in.stage.pending())
 	case evDeliverOne:
-		in.deliver(min(1, len(in.cap.wire)))
+		in.deliver(min(1, in.stage.pending()))
 	case evDeliverHalf:
-		in.deliver((len(in.cap.wire) + 1) / 2)
+		in.deliver((in.stage.pending() + 1) / 2)
 	case evStats:
 		conn.VerifC18UpdateStats(in.tx)
 	}
@@ -365,7 +364,7 @@ func (in *mcInst) key() string {
 		}
 		b.WriteString("]")
 	}
-	fmt.Fprintf(&b, "|buf%d|wire%d|", conn.VerifC18Buffered(in.tx), len(in.cap.wire))
+	fmt.Fprintf(&b, "|buf%d|wire%d|", conn.VerifC18Buffered(in.tx), in.stage.pending())
 	// packets whose last byte has not reached the receiver
 	off := 0
 	for _, p := range in.packets {
@@ -386,7 +385,7 @@ func (in *mcInst) closingDrain() {
 	for i := 0; i < 64 && !conn.VerifC18SendSome(in.tx); i++ {
 	}
 	conn.VerifC18Flush(in.tx)
-	in.deliver(len(in.cap.wire))
+	in.deliver(in.stage.pending())
 	in.absorb()
 	if in.viol[0] != "" {
 		return
@@ -420,7 +419,7 @@ func runMconnSearch(r *vk.Run, c *mcCfg) vk.Result {
 		MaxState:        c.maxState,
 		MergeCheckEvery: 500,
 		Exec: func(hist []int) (out vk.Outcome) {
-			in := newMcInst(c)
+			in := newMcInst(c, false, nil)
 			defer in.close()
 			defer func() {
 				if e := recover(); e != nil {
